@@ -23,7 +23,7 @@ CONSTANTS Keys,          \* keys that may be written (even-length nibble sequenc
           MaxBatchOps,   \* bound on operations inside one batch
           MaxLost,       \* bound on simultaneously lost node bodies
           PruneModes,    \* subset of BOOLEAN
-          Features,      \* subset of {"direct","batch","second","lose","failwrite","get","noop"}
+          Features,      \* subset of {"direct","batch","second","checkout","lose","failwrite","get","noop",...}
           Bugs
 VARIABLES prune, db, root, rc, contents,
           root2, contents2,
@@ -172,6 +172,20 @@ Adopt2(p) ==
   /\ res' = OutOk
   /\ Log([a |-> "adopt", i |-> 2, root |-> J(p.r), out |-> JOut(res')])
   /\ UNCHANGED <<prune, db, root, rc, contents, bopen, cache, corder, broot, brc,
+                 bcontents, bops, lost, past>>
+
+\* handle 1 is pointed at a root it (or handle 2) had before:  trie.root_hash = old_root.
+\* This is how a user of a non-pruning trie goes back in history (C04: every past root stays
+\* readable); writes made afterwards fork the history, the abandoned branch stays in `past`.
+\* Not offered on pruning tries (the constructor's docstring: pruning is only safe from an empty
+\* database; the reference counts describe the current root only) nor while a batch is open.
+Checkout(p) ==
+  /\ "checkout" \in Features /\ ~prune /\ ~bopen /\ p \in past
+  /\ ("noop" \in Features \/ <<p.r, p.c>> # <<root, contents>>)
+  /\ root' = p.r /\ contents' = p.c
+  /\ res' = OutOk
+  /\ Log([a |-> "checkout", i |-> 1, root |-> J(p.r), out |-> JOut(res')])
+  /\ UNCHANGED <<prune, db, rc, root2, contents2, bopen, cache, corder, broot, brc,
                  bcontents, bops, lost, past>>
 
 Direct2(k, v) ==
@@ -358,6 +372,7 @@ Other == \/ \E k \in Keys : \E v \in Vals \cup {NoVal} :
          \/ Commit \/ Abort
          \/ ("failwrite" \in Features /\ \E j \in 1..8 : CommitFail(j))
          \/ ("second" \in Features /\ \E p \in past : Adopt2(p))
+         \/ ("checkout" \in Features /\ \E p \in past : Checkout(p))
          \/ ("lose" \in Features /\ \E n \in db : EnvLose(n))
          \/ ("lose" \in Features /\ \E n \in lost : EnvSupply(n))
          \/ ("get" \in Features /\ \E k \in LookupKeys : Get(k))
